@@ -218,11 +218,11 @@ func c14CornerInputs(r *kit.RNG) []kit.C14Input {
 
 // c14Ref is what the reference says about a byte string as a message of type t.
 type c14Ref struct {
-	Env    kit.C14Env
-	May    bool       // the reference can decode it as type t (valid or unspecified)
-	Must   bool       // ... and the documentation pins that it is accepted
-	Want   pb.Message // decoded value when May
-	Class  string
+	Env   kit.C14Env
+	May   bool       // the reference can decode it as type t (valid or unspecified)
+	Must  bool       // ... and the documentation pins that it is accepted
+	Want  pb.Message // decoded value when May
+	Class string
 	// Beyond: a decodable publish whose headers do not fit the 16-bit size
 	// fields of the commit-log record format (key > 32767 bytes, > 32767
 	// headers).  No document says what happens to it: stored decoded, stored
@@ -1089,7 +1089,7 @@ func TestVerifC14RawNATSChild(t *testing.T) {
 
 // ---------------------------------------------------------------- (c) parent
 
-var c14CrashFrameRe = regexp.MustCompile(`(?m)^(github\.com/liftbridge-io/liftbridge/server\S*?)\(.*\)\n\t(\S+):\d+`)
+var c14CrashFrameRe = regexp.MustCompile(`(?m)^(github\.com/liftbridge-io/liftbridge/server[^\n]*)\([^\n]*\)\n\t(\S+):\d+`)
 
 func c14CrashInfo(out string) (line, frame string) {
 	frame = "?"
